@@ -31,10 +31,11 @@ W_CLONE = "1 1 ; cr 0 e %s - ; cr 0 t - %s ; ac 1 2 ; cl 2 0 ; ac 1 3" % (hx("a"
 W_FRAGDOC = "1 1 ; cr 0 f - - ; cr 0 e %s - ; cr 0 e %s - ; ac 1 2 ; ac 1 3 ; ac 0 1" % (hx("a"), hx("b"))   # F27
 W_STALE = "1 1 ; cr 0 e %s - ; ac 0 1 ; rp 0 1 1 ; cr 0 e %s - ; ac 0 2" % (hx("a"), hx("b"))                 # F28
 W_NORM = "1 1 ; cr 0 e %s - ; cr 0 t - - ; ac 1 2 ; nz 1" % hx("a")                                            # F29
+W_OWNATTR = "1 1 ; cr 0 e %s - ; sa 1 %s %s ; sn 1 2" % (hx("e"), hx("k"), hx("v"))                        # F33
 W_RNAME = "1 1 ; cr 0 e %s - ; rn 0 1 - %s" % (hx("a"), hx("1a"))                                            # F30
 W_RNSET = "1 1 ; cr 0 e %s - ; rn 0 1 %s %s ; rn 0 2 %s %s" % (hx("a"), hx("u"), hx("p:b"), hx("u"), hx("q:"))   # F31
 WITNESSES = [("F18", W_SELF), ("F18", W_SELF2), ("F26", W_CLONE), ("F27", W_FRAGDOC), ("F28", W_STALE), ("F29", W_NORM),
-             ("F30", W_RNAME), ("F31", W_RNSET)]
+             ("F30", W_RNAME), ("F31", W_RNSET), ("F33", W_OWNATTR)]
 
 NAMES = ["a", "b", "c", "a:b", "x-1", "_q"]
 QNAMES = ["a", "b", "p:b2", "q:c", "xml:a", "xmlns", "xmlns:p", "a:b:c", ":a", "p:", "1a", "p:1", "", "a b"]
@@ -155,12 +156,40 @@ def gen_rename(ctx, cases):
                                            "ac 2 %d" % n, "rm 2 4"])))
 
 
+def gen_attrs(ctx, cases):
+    """attribute NODES: setAttributeNode / removeAttributeNode / getAttributeNode / setAttribute / removeAttribute / clone /
+    value edits with operands drawn from ALL attributes (of this element, of another element with the SAME name,
+    detached with the same name, another name, another document), all ordered pairs of operations"""
+    pre = ["cr 0 e %s -" % hx("e1"), "cr 0 e %s -" % hx("e2"), "cr 1 e %s -" % hx("e3"),
+           "sa 2 %s %s" % (hx("k"), hx("v")), "sa 3 %s %s" % (hx("k"), hx("w")), "sa 2 %s %s" % (hx("j"), hx("x")),
+           "cr 0 a %s -" % hx("k"), "cr 0 a %s -" % hx("z"), "sa 4 %s %s" % (hx("k"), hx("y")), "cr 1 a %s -" % hx("k")]
+    # 2,3 elements of document 0; 4 element of document 1; attributes 5(k on 2) 7(k on 3) 9(j on 2) 11(k detached)
+    # 12(z detached) 13(k on 4, document 1) 15(k detached, document 1); 6,8,10,14 their Text children
+    elems, attrs = [2, 3, 4], [5, 7, 9, 11, 12, 13, 15]
+    ops = ["%s %d %d" % (o, e, a) for o in ("sn", "xn") for e in elems for a in attrs]
+    ops += ["ra 2 %s" % hx("k"), "ra 3 %s" % hx("k"), "sa 2 %s %s" % (hx("k"), hx("new")), "sa 3 %s %s" % (hx("q"), hx("new")),
+            "gn 2 %s" % hx("k"), "gn 3 %s" % hx("z"), "cl 2 1", "cl 2 0", "cl 5 0", "sd 5 %s" % hx("q"), "sd 11 %s" % hx("q"),
+            "ga 2 %s" % hx("k"), "sn 2 6", "xn 5 5", "ac 5 8", "rn 0 5 %s %s" % (hx("u"), hx("p:k")), "rn 0 2 %s %s" % (hx("u"), hx("p:e"))]
+    thorough = ctx.tier == "thorough"
+    head = "2 0 ; " + " ; ".join(pre)
+    for a in ops:
+        cases.append(("attr-1", head + " ; " + a))
+        for b in ops:
+            cases.append(("attr-2", head + " ; " + a + " ; " + b))
+            if thorough:
+                for c in ops[::5]:
+                    cases.append(("attr-3", head + " ; " + a + " ; " + b + " ; " + c))
+
+
 def rand_op(rng):
     r = rng.random
     R = lambda: "%%%d" % rng.randrange(1 << 20)
     k = rng.random()
+    if k < 0.05:
+        o = rng.choice(["sn", "sn", "xn", "xn", "gn"])
+        return "gn %s %s" % (R(), hx(rng.choice(NAMES))) if o == "gn" else "%s %s %s" % (o, R(), R())
     if k < 0.16:
-        t = rng.choice("eeeettttscpfra")
+        t = rng.choice("eeeettttscpfraaa")
         nm = rng.choice(NAMES) if r() < 0.93 else rng.choice(BADNAMES)
         return "cr %d %s %s %s" % (rng.randrange(3), t, hx(nm), hx(rng.choice(DATA)))
     if k < 0.34:
@@ -338,6 +367,20 @@ def run(ctx):
                                   "model_repaired": run_bin(xm, ["m11"], [W_SUBSTR])[1][0][:500], "what": what,
                                   "fix": "fixes/C13-substring-count.patch"})
 
+    # F33: setAttributeNode of an attribute the element already has clears its ownerElement (fix: fixes/C13-setnameditem-self.patch)
+    w33 = WITNESSES[[f for f, _ in WITNESSES].index("F33")][1]
+    out33 = run_impl(ctx, xh, [w33])[0][0]
+    f33_present = "INCONSISTENT:attribute-ownerElement" in out33
+    ctx.coverage["defect_switches_detected"]["fix_setnameditem_self(F33)"] = not f33_present
+    if f33_present:
+        what33 = ("e.setAttributeNode(a) with a already an attribute of e: DOMAttrMapImpl::setNamedItem treats a as the replaced "
+                  "attribute and clears its owner; a stays in e's map while a.getOwnerElement() is null (inconsistent links)")
+        if ctx.find_known("F33"):
+            ctx.known_finding("F33", what33 + " (witness `%s`)" % w33)
+        else:
+            ctx.violation("F33", {"request": w33, "impl": out33[:3000], "model_repaired": run_bin(xm, ["m11"], [w33])[1][0][:3000],
+                                  "what": what33, "fix": "fixes/C13-setnameditem-self.patch"})
+
     # ---- 2. cases
     cases = []
     if ctx.replay:
@@ -349,6 +392,7 @@ def run(ctx):
         gen_fragments(ctx, cases)
         gen_counts(ctx, cases)
         gen_rename(ctx, cases)
+        gen_attrs(ctx, cases)
         gen_random(ctx, cases)
     lines = [c[1] for c in cases]
     impl, crashes = run_impl(ctx, xh, lines)
@@ -372,6 +416,7 @@ def run(ctx):
     opcount = 0
     excs = 0
     kinds_seen = []
+    f33_lines = []
     for cur_index, ((kind, req), i, m) in enumerate(zip(cases, impl, model)):
         ctx.count()
         kinds[kind] = kinds.get(kind, 0) + 1
@@ -382,6 +427,13 @@ def run(ctx):
             ctx.distinct(req)
         if i != m and not i.startswith("CRASH"):
             k = len(kinds_seen)
+            if f33_present and "INCONSISTENT:attribute-ownerElement" in i:
+                # the defect reported above: everything before the inconsistent dump must agree with the model
+                cut = i.rindex(" | ", 0, i.index("INCONSISTENT"))       # the inconsistent dump itself shows the defect
+                ntok = len(i[:cut].split(" "))
+                if i.split(" ")[:ntok] == m.split(" ")[:ntok]:
+                    f33_lines.append(cur_index)
+                    continue
             if cur_index in affected and ("INCONSISTENT" in i):
                 # the harness stops a sequence at the first inconsistent dump; everything before it must agree
                 cut = i.index("INCONSISTENT")
@@ -432,9 +484,11 @@ def run(ctx):
             cls = "F27"     # exactly: all children legal for the Document, >= 2 root elements would result
         elif opn == "rn" and f.get("rn", "").startswith("badname") and f.get("model", "").startswith("n") and f.get("spec") == "e5":
             cls = "F30"
-        elif opn == "rn" and ",nsclass," in f.get("rn", "") and f.get("model") == "e14" and f.get("unchanged") == "false" \
+        elif opn == "rn" and ",nsclass," in f.get("rn", "") and f.get("model") in ("e14", "e5") and f.get("unchanged") == "false" \
                 and f.get("spec") in ("e14", "e5"):
             cls = "F31"
+        elif opn == "sn" and f.get("sn") == "own" and f.get("unchanged") == "false":
+            cls = "F33"
         elif opn == "nz":
             cls = "F29"
         elif f.get("stale_docel") == "true" and opn in ("ac", "ib", "rp") and f.get("types", "").startswith("9/"):
@@ -449,18 +503,21 @@ def run(ctx):
         classes.setdefault(cls, []).append(k)
     ctx.coverage["spec_oracle_checked"] = len(agree_idx) + len(divergences[:300])
     ctx.coverage["spec_oracle_attributed"] = {c: len(v) for c, v in classes.items()}
-    ctx.coverage["sequences_affected_by_reported_unfixed_defects"] = len(affected)
+    ctx.coverage["sequences_affected_by_reported_unfixed_defects"] = len(affected) + len(f33_lines)
     texts = {
         "F27": "a DocumentFragment holding an element is moved into a Document child by child: when a second root element is "
                "met HIERARCHY_REQUEST_ERR is raised after earlier children were already moved (exception AND changed tree)",
         "F28": "Document.replaceChild(root, root) removes the root but leaves the cached documentElement pointing at it: the "
                "document then refuses every new root element with HIERARCHY_REQUEST_ERR",
         "F29": "normalize() merges adjacent Text nodes but does not remove empty Text nodes (DOM Core Node.normalize)",
+        "F33": "setAttributeNode(a) with a already an attribute of the element: DOMAttrMapImpl::setNamedItem treats a as the "
+               "'previous' attribute and clears its owner: a stays in the element's map but getOwnerElement() is null",
         "F30": "renameNode does not check the new name when the node keeps its implementation class (no namespace for a "
                "Level-1 node, any rename of a namespace-aware node without a colon): an invalid XML name is accepted instead "
                "of INVALID_CHARACTER_ERR",
-        "F31": "renameNode of a namespace-aware element/attribute assigns the new name BEFORE the namespace checks: "
-               "NAMESPACE_ERR is raised but nodeName has already changed (exception AND changed node)",
+        "F31": "renameNode changes the node BEFORE its checks: a namespace-aware element/attribute gets the new name assigned "
+               "first, an attribute that is on an element is taken off it first; NAMESPACE_ERR / INVALID_CHARACTER_ERR is then "
+               "raised with nodeName already changed / the attribute left detached (exception AND changed tree)",
     }
     widx = {f: n for n, (f, _) in enumerate(WITNESSES)}
     for fid, ks in sorted(classes.items()):
